@@ -296,7 +296,8 @@ void InterfaceMakerPythonSimple::write_function_instance(ostream &out, Interface
         parameter_list += ", &" + param_name;
         pexpr_string = "(wchar_t *)" + param_name;
 
-      } else if (TypeManager::is_wstring(orig_type)) {
+      } else if (TypeManager::is_wstring(orig_type) ||
+                 TypeManager::is_const_ptr_to_basic_string_wchar(orig_type)) {
         out << "Py_UNICODE *" << param_name
             << "_str; Py_ssize_t " << param_name << "_len";
         format_specifiers += "u#";
